@@ -130,6 +130,8 @@ struct FileVersion
     std::string text; // what a complete read returns (before cut)
     size_t completeAt = 0; // offset after the root end tag of `text`
     std::string tag; // short description for logs / signatures
+    int parsedStrict = -1; // a version as it sits in an importer's library: the parsing mode it was read in (-1: not such a version)
+    int originId = -1; // ... and the version on disk it was read from
     bool opens() const { return load != Load::ABSENT && load != Load::UNREADABLE; }
     // well-formed as served?
     bool wellFormed() const
